@@ -8,5 +8,6 @@ mkdir -p evidence replays work
 cd spec
 for m in MBCore MBProps MBServer MBPair MBPairCfg Classify ClassifyDoc TraceCheck TracePair DbFiles DbFilesMC FilesTrace; do
   java -cp /opt/veriftools/tla/tla2tools.jar:/opt/veriftools/tla/CommunityModules-deps.jar tla2sany.SANY $m.tla > ../work/sany_$m.log 2>&1 || { cat ../work/sany_$m.log; exit 1; }
+  if grep -q "Semantic errors\|\*\*\* Errors\|Parse Error\|Fatal errors" ../work/sany_$m.log; then cat ../work/sany_$m.log; exit 1; fi
 done
 echo "setup ok"
